@@ -44,7 +44,8 @@ fn scenes(m: Method, backward: bool) -> Vec<Scene> {
         c.user_jac = true;
         c.keep_log = true;
         if m == Method::RK4 {
-            c.first_step = Some(xend / 8.0);
+            // does not divide the interval: the last step is shortened to land on xend
+            c.first_step = Some(xend / 7.3);
         }
         Scene { prob: p, cfg: c, exact_doubling: exact }
     };
